@@ -1,5 +1,12 @@
 package responseadaptor
 
+import (
+	"net/http"
+
+	"github.com/megaease/easegress/pkg/context"
+	"github.com/megaease/easegress/pkg/protocols/httpprot"
+)
+
 // C13, kind ResponseAdaptor: a spec that validation accepts can be initialised.
 func verifC13_ResponseAdaptor() {
 	vals := []string{"", "gzip", "deflate"}
@@ -14,4 +21,23 @@ func verifC13_ResponseAdaptor() {
 	ra := &ResponseAdaptor{spec: spec}
 	ra.Init() // a panic here is reported as a violation
 	verifCover("initialised")
+	// and it handles a request wherever it sits in the flow: with a response of an earlier
+	// filter in its namespace, or with none (first filter of the flow, another namespace)
+	ctx := context.New(nil)
+	req, _ := httpprot.NewRequest(&http.Request{Method: "GET", Header: http.Header{}})
+	ctx.SetRequest(context.DefaultNamespace, req)
+	hasResponse := verifBool("aResponseExistsInTheNamespace")
+	if hasResponse {
+		resp, _ := httpprot.NewResponse(nil)
+		resp.SetPayload([]byte("x"))
+		ctx.SetResponse(context.DefaultNamespace, resp)
+	}
+	res := ra.Handle(ctx) // a panic here is reported as a violation
+	if !hasResponse {
+		verifAssert(res == resultResponseNotFound, "no-response-is-a-declared-result")
+		verifCover("handled-without-a-response")
+	} else if spec.Compress == "" && spec.Decompress == "" {
+		verifAssert(res == "", "plain-adaptation-succeeds")
+		verifCover("handled")
+	}
 }
